@@ -300,6 +300,10 @@ pub enum Strat {
     /// After a step of `victim` (with probability p/16) let another thread complete `k` whole
     /// operations before the victim continues.
     Adversary { victim: usize, k: u32, p: u32 },
+    /// Directed schedule: `inner.script` is a list of (thread, site): run that thread until it is
+    /// about to execute that step point (u16::MAX = until it has finished), then go on with the
+    /// next entry; after the script, round-robin until everybody is done.
+    Script,
 }
 
 pub struct Inner {
@@ -329,6 +333,9 @@ pub struct Inner {
     pub freeze_budget: u32,
     pub solo_fresh: bool,
     pub frozen_sites: Vec<(usize, u16)>,
+    pub script: Vec<(usize, u16)>,
+    pub script_pos: usize,
+    pub script_failed: bool,
 }
 
 pub struct Tok {
@@ -371,6 +378,9 @@ static TOK: Tok = Tok {
         freeze_budget: u32::MAX,
         solo_fresh: false,
         frozen_sites: Vec::new(),
+        script: Vec::new(),
+        script_pos: 0,
+        script_failed: false,
     }),
 };
 
@@ -418,6 +428,9 @@ pub fn token_prepare(n: usize, sched_seed: u64, strat: Strat, record: bool) {
     inn.freeze_budget = u32::MAX;
     inn.solo_fresh = false;
     inn.frozen_sites.clear();
+    inn.script.clear();
+    inn.script_pos = 0;
+    inn.script_failed = false;
     inn.changes.clear();
     for p in inn.prio.iter_mut() {
         *p = 0;
@@ -538,11 +551,12 @@ fn random_other(inn: &mut Inner, me: usize) -> Option<usize> {
     }
 }
 
-fn pick(inn: &mut Inner, me: usize) -> usize {
+fn pick(inn: &mut Inner, me: usize, site: u16) -> usize {
     if inn.solo != NOT_WORKER {
         return inn.solo;
     }
     match inn.strat {
+        Strat::Script => script_pick(inn, me, site),
         Strat::Random { sw } => {
             if inn.rng.below(16) < sw as u64 {
                 random_other(inn, me).unwrap_or(me)
@@ -588,6 +602,31 @@ fn pick(inn: &mut Inner, me: usize) -> usize {
     }
 }
 
+/// Directed schedule (see `Strat::Script`).
+fn script_pick(inn: &mut Inner, me: usize, site: u16) -> usize {
+    loop {
+        if inn.script_pos >= inn.script.len() {
+            // after the script: keep the current thread running, others follow when it finishes
+            return me;
+        }
+        let (t, until) = inn.script[inn.script_pos];
+        let st = TOK.status[t].load(Relaxed);
+        if st == ST_FINISHED || st == ST_ABSENT {
+            if until != u16::MAX {
+                inn.script_failed = true;
+            }
+            inn.script_pos += 1;
+            continue;
+        }
+        if t == me && until == site {
+            // reached: this thread stays parked right before executing `site`
+            inn.script_pos += 1;
+            continue;
+        }
+        return t;
+    }
+}
+
 #[inline]
 fn token_step(site: u16) {
     let me = tid();
@@ -615,7 +654,7 @@ fn token_step(site: u16) {
                 .collect();
         }
     }
-    let next = pick(inn, me);
+    let next = pick(inn, me, site);
     if next != me {
         inn.switches += 1;
         TOK.cur.store(next, Release);
@@ -742,6 +781,13 @@ pub fn token_finish() {
     let next = match inn.strat {
         Strat::Pct { .. } => highest_prio(inn, me),
         Strat::Adversary { victim, .. } if runnable(victim) => Some(victim),
+        Strat::Script => {
+            let want = inn.script.get(inn.script_pos).map(|x| x.0);
+            match want {
+                Some(t) if t != me && runnable(t) => Some(t),
+                _ => random_other(inn, me),
+            }
+        }
         _ => random_other(inn, me),
     };
     let next = next.or_else(|| (0..inn.nthreads).find(|&t| t != me && TOK.status[t].load(Relaxed) == ST_BLOCKED));
@@ -777,6 +823,18 @@ pub fn cancel_freeze() {
             inn.solo = NOT_WORKER;
         }
     }
+}
+
+pub fn set_script(script: Vec<(usize, u16)>) {
+    let inn = unsafe { inner() };
+    inn.script = script;
+    inn.script_pos = 0;
+    inn.script_failed = false;
+}
+
+pub fn script_completed() -> bool {
+    let inn = unsafe { inner() };
+    inn.script_pos >= inn.script.len() && !inn.script_failed
 }
 
 pub fn is_solo() -> bool {
